@@ -115,4 +115,11 @@ def GrowOk (chunk used : Nat) (e : REnv) : Prop :=
   e.mapSize % chunk = 0 ∧ chunk ≤ e.mapSize ∧ used * 10 ≤ 9 * e.mapSize ∧
   e.checking = false ∧ e.resizing = false ∧ e.pending = none
 
+/-! ### several `Store` handles on one environment
+
+All `Store`s opened on one root share the environment (`ENV_MAP`); `maybe_resize` of any handle
+reads the shared `EnvState` and `env.info()`.  A history labelled with the handle that performed
+each action: -/
+def hrun (e : REnv) (l : List (Nat × RAct)) : REnv := l.foldl (fun e x => rstep e x.2) e
+
 end GV.Kv
